@@ -11,7 +11,7 @@ import random
 PID = 'C04'
 HEADER = []
 T0 = 2000000000
-TIMEOUT = 600
+TIMEOUT = 3000   # real-thread cases queue for one of <par> machine-wide slots
 RULE = ('pcr: the REAL Checkable::ProcessCheckResult (local, origin null) under the virtual clock from the never-checked state: all result '
         'histories of length <= 3 over {OK,WARNING,CRITICAL} x {host,service} x max_check_attempts {1,2,3} (covers every pre state type x '
         'has-result x OK/non-OK x max 1/>1 combination) + random longer ones incl. passive results; next_check diffed against the '
@@ -31,7 +31,8 @@ TRUSTED = ['model: coq/Sched/SchModel.v (critical sections of CheckThreadProc, E
 ASSUMPTIONS = ['binary64 rounding of fmod/division in UpdateNextCheck is outside the model: the Q result is strict, a one-ulp tie adj = interval is not excluded',
                'check commands process their result synchronously inside ExecuteCheck (native function); plugin processes that outlive ExecuteCheckHelper are not modelled',
                'passive check results arriving while an active check runs clear m_CheckRunning (checkable-check.cpp:105); outside the quantifier, not generated',
-               'liveness is proved as enabledness only; the run-time bound 2*I + 2*dmax + slack is checked only over windows in which the checkable stayed schedulable and the population is sized to <= 25% utilisation',
+               'liveness is proved as enabledness only (C04_progress_partial); at run time only its timed reading is a violation: the SAME head of the next-check index stays due with a free slot for > 3 s + 10 x max observed oversleep (decided from snapshots taken under m_Mutex); waiting for a slot, for earlier-due checkables, for a pool thread or for the CPU is never flagged; gaps between starts (W records) are statistics only',
+               'a forced request is flagged only if it was never served although snapshots show the checkable in idle behind a head whose key is beyond anything its own key can be (request + Imax + dmax + 1 s + 10 x oversleep); at most <par> real-thread cases run at a time machine-wide (flock slots in /var/tmp/verif_c04_slots)',
                'all checkables are in the local zone (same_zone = true) in the real-thread runs']
 
 
@@ -75,7 +76,7 @@ def pcr_cases(rnd, nrand):
     return cases
 
 
-def run_case(rnd, n, maxc, dur, rate=None):
+def run_case(rnd, n, maxc, dur, rate=None, par=4, tail=2500):
     tp = rnd.choice((4, 8, 16))
     imin = rnd.choice((50, 100)) if n <= 80 else 200
     imax = 400
@@ -88,8 +89,8 @@ def run_case(rnd, n, maxc, dur, rate=None):
     cap = 0.25 * min(maxc, tp)
     slow = int(max(0, min(30, 100 * cap * iavg / (n * davg))))
     rate = rate or rnd.choice((100, 200, 400))
-    line = 'sch_run seed=%d n=%d max=%d dur=%d tp=%d imin=%d imax=%d slow=%d thr=%d rate=%d dlo=%d dhi=%d slack=2500 tail=1000' % (
-        rnd.randint(1, 10 ** 6), n, maxc, dur, tp, imin, imax, slow, rnd.choice((5, 10, 20)), rate, dlo, dhi)
+    line = 'sch_run seed=%d n=%d max=%d dur=%d tp=%d imin=%d imax=%d slow=%d thr=%d rate=%d dlo=%d dhi=%d slack=2500 tail=%d par=%d' % (
+        rnd.randint(1, 10 ** 6), n, maxc, dur, tp, imin, imax, slow, rnd.choice((5, 10, 20)), rate, dlo, dhi, tail, par)
     return {'lines': [line], 'tags': {'family': 'run', 'n': n, 'max': maxc}}
 
 
@@ -106,12 +107,12 @@ def generate(seed, tier):
         nunc, k = 10, 60
     else:
         shapes = []
-        for rep in range(4):
+        for rep in range(3):
             shapes += [(5, 1), (8, 2), (10, 1), (20, 1), (20, 4), (40, 8), (60, 2), (100, 8), (150, 64), (200, 8), (300, 8), (300, 64)]
         dur = 30000
         nunc, k = 200, 100
     for (n, m) in shapes:
-        cases.append(run_case(rnd, n, m, dur))
+        cases.append(run_case(rnd, n, m, dur, par=5 if tier == 'quick' else 4))
     for _ in range(nunc):
         cases.append(unc_case(rnd, k))
     cases += pcr_cases(rnd, {'quick': 150, 'search': 100}.get(tier, 2000))
@@ -138,7 +139,7 @@ def classify(case, detail, impl_lines):
         return 'next-check-after-result'   # deterministic (virtual clock) ProcessCheckResult case: replay always reproduces
     return {'single-flight': 'single-flight', 'concurrency': 'concurrency', 'twice': 'scheduled-twice', 'dropped': 'dropped',
             'not-removed': 'not-removed', 'next-check': 'next-check', 'liveness': 'liveness', 'forced': 'forced',
-            'slot-leak': 'slot-leak', 'crash': 'crash'}.get(w, 'other')
+            'slot-leak': 'slot-leak', 'pending-leak': 'pending-leak', 'crash': 'crash'}.get(w, 'other')
 
 
 def keep_line(l):
